@@ -15,3 +15,49 @@ def run(ctx):
                        "which worker runs an operation is not observable: comparison is on the projection "
                        "(daemon pins, Status, StatusAll, in-flight calls, returned error)"]
     tc.pipeline(ctx, ["converge", "recover", "nodrop"])
+    e2e(ctx)
+
+
+def e2e(ctx):
+    """Composition (spec/Cluster.tla): TLC-simulated operation sequences on 3 real Cluster peers (real allocator,
+    real tracker, real ipfshttp connector, mock IPFS daemon over HTTP), final states judged by TLC."""
+    import json, os
+    import tla, vcheck
+    from props import tracker_common as tc2
+    ctx.tlc("Cluster.tla", "Cluster_mc.cfg", workers=12, timeout=2400)
+    n = 12 if ctx.quick() else 150
+    ctx.tlc("Cluster.tla", "Cluster_sim.cfg", count=False, workers=1, timeout=1200,
+            simulate="file=e2e,num=%d" % n, depth=40, seed=ctx.seed * 17 + 5)
+    scripts = []
+    for k, beh in enumerate(tla.read_behaviours(ctx.specdir(), "e2e")):
+        acts = []
+        for st in beh[1:]:
+            a = st["state"]["act"]
+            if a["name"] in ("Pin", "Unpin", "PeerFail"):
+                acts.append(a)
+        if acts:
+            scripts.append({"id": "e%d" % k, "peers": ["p1", "p2", "p3"], "cids": ["c1", "c2", "c3"], "acts": acts})
+    inp = os.path.join(ctx.work, "e2e_scripts.ndjson")
+    with open(inp, "w") as f:
+        for sc in scripts:
+            f.write(json.dumps(sc) + "\n")
+    trace = os.path.join(ctx.work, "e2e_obs.ndjson")
+    ctx.go_test("c05_e2e", run="TestDriver", infile=inp, env={"VERIF_TRACE": trace}, timeout=3000)
+    verdict = os.path.join(ctx.work, "e2e_verdict.ndjson")
+    r = tla.run_tlc(ctx.specdir(), "ClusterObs.tla", "ClusterObs.cfg", workers=1, timeout=1200,
+                    env_extra={"TRACE_FILE": trace, "VERDICT_FILE": verdict})
+    ctx.log("tlc ClusterObs: rc=%s %.1fs" % (r.rc, r.wall))
+    if not os.path.exists(verdict):
+        print(r.out[-3000:])
+        raise vcheck.Infra("ClusterObs produced no verdict")
+    v = json.loads(open(verdict).readline())
+    recs = [json.loads(l) for l in open(trace)]
+    ctx.extra["e2e_final_states_judged_by_tlc"] = v["n"]
+    ctx.traces_validated += v["n"] - len(set(v["e2e"]) | set(v["alloc"]))
+    for i in v["e2e"]:
+        ctx.violation("C05:e2e:daemon-differs-from-assignment", "end-to-end: after everything settled a live peer's daemon does "
+                      "not hold exactly the pins the shared pinset assigns to it", recs[i - 1])
+    for i in v["alloc"]:
+        ctx.violation("C05:e2e:stored-allocation", "end-to-end: a stored pin has an empty or over-max allocation list", recs[i - 1])
+    for i in v["stuck"][:1]:
+        ctx.violation("C05:recover:direct-over-recursive", "end-to-end run reached the tolerated direct-over-recursive class", recs[i - 1])
